@@ -30,7 +30,7 @@ class ScriptGen:
         self.universe = list(universe or UNIVERSE)
         self.base = dict(base if base is not None else BASE_META)
         # what the metadata provider knows about the base tables (defaults to everything)
-        self.known = dict(known) if known is not None else self.base
+        self.known = dict(known) if known is not None else dict(self.base)
         self.cols: dict[str, list[str]] = {}  # columns this script itself defined, per table
         self.n = 0
         self.sub = 0
@@ -39,6 +39,7 @@ class ScriptGen:
         self.written: list[str] = []
         self.annot: list[dict] = []  # per generated statement: what the generator knows about it
         self.strict_subquery_cols = False  # True: a derived table is only asked for columns it projects
+        self.shadow_targets: list[str] = []  # base tables that CTAS / CREATE VIEW may re-create
         self._sel: dict = {}
 
     # -- helpers
@@ -174,6 +175,9 @@ class ScriptGen:
                 sel, out = f"WITH {cte} AS (SELECT {c} AS {nc} FROM {t}) SELECT {nc} FROM {cte}", [nc]
                 kind = "insert"
             t = self.target()
+            if self.shadow_targets and kind in ("ctas", "view") and g.random() < 0.15:
+                # CREATE a table the provider also knows: the script's definition must shadow the provider's
+                t = g.choice(self.shadow_targets)
             if kind == "ctas":
                 sql = f"CREATE TABLE {t} AS {sel}"
             elif kind == "view":
@@ -186,6 +190,8 @@ class ScriptGen:
                 sql = f"INSERT INTO {t} {sel}"
             if out:
                 self.cols[t] = list(out)
+            elif t in self.shadow_targets:
+                self.known.pop(t, None)  # re-created with columns the generator cannot name: nothing is known any more
             if t not in self.written:
                 self.written.append(t)
             a = {"kind": kind, "target": t, "out": list(out) if out else None, "srcs": list(self._sel.get("srcs", [])),
